@@ -816,8 +816,10 @@ func runCase(run *hx.Run, d desc, kind string) {
 			run.Count("max-cavity:9-16")
 		case maxCav <= 32:
 			run.Count("max-cavity:17-32")
+		case maxCav <= 64:
+			run.Count("max-cavity:33-64")
 		default:
-			run.Count("max-cavity:33+")
+			run.Count("max-cavity:65+")
 		}
 		complete, key, missing := true, "", 0
 		if len(ps) <= 150 {
@@ -962,14 +964,14 @@ func main() {
 		fixedNo++
 		runCase(run, d, "pts")
 	}
-	{ // a fixed wheel: 24 rim points on a slightly perturbed circle, the hub last (cavity of about 22
+	for _, spokes := range []int{24, 80} { // fixed wheels: 24 / 80 rim points on a slightly perturbed circle, the hub last (cavity of about 22 / 78
 		// triangles).  Mirror images about the middle of the bounding box are concyclic with the two base
 		// vertices of the super triangle, so the first perturbation the faithful-run filter admits is used.
 		for seed := uint64(20); ; seed++ {
 			fr := hx.NewRng(seed)
 			var rim []P
-			for len(rim) < 24 {
-				th := 2 * math.Pi * (float64(len(rim)) + 0.2*fr.Float()) / 24
+			for len(rim) < spokes {
+				th := 2 * math.Pi * (float64(len(rim)) + 0.2*fr.Float()) / float64(spokes)
 				p := P{1000 + int64(math.Round(1000*math.Cos(th))) + int64(fr.Intn(9)) - 4, 1000 + int64(math.Round(1000*math.Sin(th))) + int64(fr.Intn(9)) - 4}
 				if okToAdd(rim, p) {
 					rim = append(rim, p)
@@ -980,7 +982,7 @@ func main() {
 				hub.x++
 			}
 			x0, y0, _, _ := bbox(rim)
-			d := desc{Model: true, Wide: true, Gen: "fixed-wheel"}
+			d := desc{Model: spokes <= 40, Wide: true, Gen: "fixed-wheel"}
 			for _, p := range append(rim, hub) {
 				d.Pts = append(d.Pts, [2]int64{p.x - x0, p.y - y0})
 			}
